@@ -198,6 +198,7 @@ Step(C, m) ==
                        ELSE CASE n.op = "set" -> [st EXCEPT ![n.key] = n.arg]
                               [] n.op = "inc" -> [st EXCEPT ![n.key] = (IF @ = -1 THEN 0 ELSE @) + n.arg]
                               [] n.op = "app" -> [st EXCEPT !.cl = Append(@, n.arg)]
+                      [] n.op = "del" -> [st EXCEPT ![n.key] = -1]
                               [] OTHER -> st
                 cur == IF n.key = "cl" THEN Len(st.cl) ELSE IF st[n.key] = -1 THEN 0 ELSE st[n.key]
                 args == ev.args[2]
